@@ -59,12 +59,16 @@ type Run struct {
 	stateHashes map[uint64]bool
 	skel       []string
 	stopWD     func()
+	// FirstOnly: report only the first discrepancy of the run (state-image
+	// properties: later ones are consequences of the diverged state)
+	FirstOnly bool
+	Taints    map[uint64]string // UP SEID -> first known-finding trigger applied to the session
 	returned   map[int]*bool
 }
 
 func (r *Run) Violate(prop, sig, format string, a ...any) {
 	key := prop + "|" + sig
-	if r.vseen[key] {
+	if r.vseen[key] || (r.FirstOnly && len(r.Violations) > 0) {
 		return
 	}
 	r.vseen[key] = true
